@@ -1852,7 +1852,11 @@ def _read_reader_macro(ctx: ReaderContext) -> LispReaderForm:
     char = ctx.reader.peek()
 
     if (read_macro := _read_macro_dispatch.get(char)) is not None:
-        return _with_start_loc(read_macro(ctx), line, col)
+        form = read_macro(ctx)
+        if char == "?":
+            # The selected branch of a reader conditional is located by its own text
+            return form
+        return _with_start_loc(form, line, col)
     elif begin_ns_name_chars.match(char):
         s = _read_sym(ctx, is_reader_macro_sym=True)
         assert isinstance(s, sym.Symbol)
